@@ -37,7 +37,7 @@ func (w *World) immutable() []string {
 	}
 	w.immutableKeys = []string{}
 	for _, fd := range w.Frames {
-		if fd.IsCall || fd.IsArg {
+		if fd.IsCall || fd.IsArg || fd.IsErrKind {
 			continue
 		}
 		if len(fd.Funcs) == 0 || (len(fd.Funcs) == 1 && strings.HasSuffix(fd.Funcs[0], "none")) {
@@ -145,6 +145,9 @@ func (w *World) checkFrames(prop string) []*Obligation {
 		if fd.IsElems {
 			kind = "frameelems"
 		}
+		if fd.IsErrKind {
+			kind = "errorkind"
+		}
 		fam := shortPkg(fd.Pkg) + "." + fd.Comp + "#" + kind
 		o := &Obligation{ID: fam + "@1", Family: fam, Kind: kind, Func: shortPkg(fd.Pkg) + "." + fd.Comp, Goal: "true", Backend: "syntactic",
 			Text: fmt.Sprintf("%s %s: %s", kind, fd.Comp, strings.Join(fd.Funcs, ", "))}
@@ -153,7 +156,9 @@ func (w *World) checkFrames(prop string) []*Obligation {
 			allowed[f] = true
 		}
 		var offenders []string
-		if fd.IsArg {
+		if fd.IsErrKind {
+			offenders = w.bareErrorReturns(fd, allowed)
+		} else if fd.IsArg {
 			offenders = w.argOffenders(fd, allowed)
 		} else if fd.IsElems {
 			offenders = w.elemWriters(fd)
@@ -627,5 +632,67 @@ func (w *World) argOffenders(fd *FrameDecl, allowed map[string]bool) []string {
 			}
 		}
 	}
+	return offenders
+}
+
+// bareErrorReturns: functions of the package (test files excepted) with a return statement one of whose operands is
+// a direct call of errors.New, or of fmt.Errorf with a format that wraps nothing (%w absent or not a literal).
+func (w *World) bareErrorReturns(fd *FrameDecl, allowed map[string]bool) []string {
+	pi := w.Pkgs[fd.Pkg]
+	if pi == nil {
+		return []string{"!package " + fd.Pkg + " not loaded"}
+	}
+	info := pi.P.TypesInfo
+	seen := map[string]bool{}
+	var offenders []string
+	for _, file := range pi.P.Syntax {
+		if strings.HasSuffix(w.Fset.Position(file.Pos()).Filename, "_test.go") {
+			continue
+		}
+		for _, d := range file.Decls {
+			fn, ok := d.(*ast.FuncDecl)
+			if !ok || fn.Body == nil {
+				continue
+			}
+			ast.Inspect(fn.Body, func(n ast.Node) bool {
+				rs, ok := n.(*ast.ReturnStmt)
+				if !ok {
+					return true
+				}
+				for _, r := range rs.Results {
+					call, ok := ast.Unparen(r).(*ast.CallExpr)
+					if !ok {
+						continue
+					}
+					sel, ok := call.Fun.(*ast.SelectorExpr)
+					if !ok {
+						continue
+					}
+					f, _ := info.Uses[sel.Sel].(*types.Func)
+					if f == nil || f.Pkg() == nil {
+						continue
+					}
+					bare := false
+					switch f.Pkg().Path() + "." + f.Name() {
+					case "errors.New":
+						bare = true
+					case "fmt.Errorf":
+						bare = true
+						if len(call.Args) > 0 {
+							if tv, ok := info.Types[call.Args[0]]; ok && tv.Value != nil && strings.Contains(tv.Value.ExactString(), "%w") {
+								bare = false
+							}
+						}
+					}
+					if bare && !seen[funcKey(fn)] && !allowed[funcKey(fn)] {
+						seen[funcKey(fn)] = true
+						offenders = append(offenders, funcKey(fn))
+					}
+				}
+				return true
+			})
+		}
+	}
+	sort.Strings(offenders)
 	return offenders
 }
